@@ -994,3 +994,71 @@ func hasChanOps(fn *Func) bool {
 	})
 	return found
 }
+
+// ruleMainLineBlocking (G7): the connection's main goroutine waits in one place only — the select
+// of its loop — plus the two waits that are part of the design (the outbound queue, the one-shot
+// stop signal of a session's frame worker). Any other blocking channel operation reachable from
+// the loop without crossing a `go` means that, while it waits, the connection serves no disconnect,
+// no idle timeout and no further message: the handler is wedged by whatever keeps that channel from
+// becoming ready.
+func ruleMainLineBlocking(r *Run) {
+	if r.broken() {
+		return
+	}
+	handle := r.P.FuncByName("websocket.(*handler).Handle")
+	sendChan := r.P.LookupField(pkgWS, "handler", "sendChan")
+	stopChan := r.P.LookupField(pkgModels, "Session", "closeFrameChan")
+	if handle == nil || sendChan == nil || stopChan == nil {
+		r.Undecide("G7", "anchors not found (handler.Handle, handler.sendChan, Session.closeFrameChan)")
+		return
+	}
+	reach := r.reachableFrom(handle)
+	var fns []*Func
+	for f := range reach {
+		fns = append(fns, f)
+	}
+	sort.Slice(fns, func(i, j int) bool { return fns[i].Name < fns[j].Name })
+	seen := map[token.Pos]bool{}
+	mainArms, designed, total := 0, 0, 0
+	for _, fn := range fns {
+		if fn.Body == nil || !hasChanOps(fn) {
+			continue
+		}
+		paths := r.Paths(fn)
+		r.Analysed(fn, len(paths))
+		for pi := range paths {
+			path := &paths[pi]
+			r.at(path)
+			for _, ev := range path.Events {
+				if ev.Kind != EvChanOp || ev.NonBlocking || seen[ev.Pos] {
+					continue
+				}
+				seen[ev.Pos] = true
+				total++
+				fv, owner := r.chanField(ev.Fn, ev.Chan)
+				desc := r.P.Canon(ev.Fn, ev.Chan)
+				if fv != nil {
+					desc = owner + "." + fv.Name()
+				}
+				op := "receive from"
+				if ev.Send {
+					op = "send into"
+				}
+				switch {
+				case ev.InSelect && ev.Fn.root().origOrSelf() == handle && ev.Depth == 0:
+					mainArms++ // the loop's own select: the one place the main line waits
+				case ev.Send && fv == sendChan:
+					designed++
+					r.Assume("the main line may wait for room in the connection's outbound queue (handler.sendChan, drained by the sender goroutine): a client that stops reading delays its own connection until the write fails")
+				case ev.Send && fv == stopChan:
+					designed++ // buffered one-shot stop signal under sync.Once (rule E6)
+				default:
+					r.Check("G7", fmt.Sprintf("%s:blocks[%s]", ev.Fn.root().origOrSelf().Name, desc), false, ev.Pos,
+						"the connection's main line can block here (%s %s, outside the loop's select and without a default arm): while it waits, the connection handles no disconnect, no idle timeout and no other message", op, desc)
+				}
+			}
+		}
+	}
+	r.Check("G7", "main-line-waits-only-in-its-select", true, handle.Body.Pos(), "%d blocking channel operations reachable from the connection loop: %d arms of the loop's select, %d designed waits", total, mainArms, designed)
+	r.Floor("G7", "arms of the connection loop's select", mainArms, 3)
+}
